@@ -337,6 +337,10 @@ pub enum Op {
     /// `GenericWriteStorage::remove` returns nothing: the harness reads the value first and does not log its destruction,
     /// so that the line reads like `rem`.
     Generic(Box<Op>),
+    /// Queues a lazy action that panics (outside the model; always followed by the case's final `maintain`, whose unwind the
+    /// harness catches). What happens in this world afterwards is not specified — the point is that OTHER worlds of the
+    /// process must behave as if it had not happened (C20).
+    LazyPanic,
     /// Probe outside the model: `entry_inner(2^24 + 1).or_insert(v)` — the mask refuses the index (panic inside
     /// `BitSet::add`), and the value handed over must still be destroyed exactly once (C08; no destructor panics).
     /// Only generated as the last op before `drop_world`, for kinds whose storage tolerates the far index cheaply.
@@ -426,6 +430,7 @@ pub fn show_op(op: &Op) -> String {
         Op::Fault(n) => write!(s, "fault {}", n).unwrap(),
         Op::Generic(inner) => { s.push('g'); s.push_str(&show_op(inner)); }
         Op::EntryFar(k, v) => write!(s, "entry_far {} {}", k, v).unwrap(),
+        Op::LazyPanic => s.push_str("lazy_panic"),
         Op::Dump => s.push_str("dump"),
     }
     s
@@ -531,6 +536,7 @@ pub fn parse_ops(ts: &[&str]) -> Option<Op> {
             Op::Generic(Box::new(parse_ops(&v)?))
         }
         ["entry_far", k, v] => Op::EntryFar(k.parse().ok()?, v.parse().ok()?),
+        ["lazy_panic"] => Op::LazyPanic,
         ["dump"] => Op::Dump,
         _ => return None,
     })
@@ -959,6 +965,10 @@ fn exec_inner(world: &mut World, ctx: &Shared, op: &Op) -> String {
                 other => exec_inner(world, ctx, other),
             }
         }
+        Op::LazyPanic => {
+            world.read_resource::<LazyUpdate>().exec(|_| panic!("verif: lazy action panics"));
+            "ok".into()
+        }
         Op::EntryFar(k, v) => {
             if !is_reg(ctx, *k) { return "nostore".into(); }
             if ![0usize, 3, 4, 6, 8].contains(k) { return "skip".into(); }
@@ -1324,6 +1334,12 @@ pub fn gen_store_script(rng: &mut Rng, len: usize, p: &StoreProfile) -> Vec<Op> 
             }
         }
         ops.push(op);
+    }
+    if p.lazy && !p.faults && !p.drop_world && rng.chance(1, 12) {
+        // a panicking lazy action ends the case (nothing after the final maintain is compared)
+        ops.push(Op::LazyPanic);
+        ops.push(Op::Maintain);
+        return ops;
     }
     if p.drop_world {
         if !p.faults && rng.chance(1, 6) {
